@@ -137,6 +137,7 @@ type TypeContract struct {
 	Sync        []string            // synchronisation objects / self-synchronised members
 	OwnerLock   map[string][]string // "Type.mu" -> fields guarded by the owning container's lock
 	Complete    bool
+	Writers     map[string][]string // field -> the only functions (short names) that may write it (closed world)
 }
 
 type ContractSet struct {
@@ -161,7 +162,7 @@ var clauseKeywords = map[string]bool{
 	"mode": true, "alloc_bound": true, "pure": true, "protected_by": true, "immutable": true,
 	"inv": true, "opaque": true, "havoc": true, "noinline": true, "bounded": true, "returns_fresh": true, "fresh_result": true, "deep_closedness": true,
 	"sweep": true, "cover": true, "replay_hint": true, "never_writes": true, "frame_only": true, "reveal": true, "iface_calls_only": true, "direct_calls_only": true,
-	"requires_held": true, "never_calls": true, "spawn_never_writes": true, "unshared_receiver": true, "sync": true, "owner_lock": true, "complete": true,
+	"requires_held": true, "writers": true, "never_calls": true, "spawn_never_writes": true, "unshared_receiver": true, "sync": true, "owner_lock": true, "complete": true,
 	"rep_invariant": true, "nested_closedness": true, "dominated": true, "writes_unconditionally": true, "deterministic": true,
 }
 
@@ -264,7 +265,7 @@ func (cs *ContractSet) ParseContractFile(path string, pkgPath string) error {
 			if pkgPath != "" {
 				name = pkgPath + "." + name
 			}
-			curType = &TypeContract{Name: name, ProtectedBy: map[string][]string{}, OwnerLock: map[string][]string{}}
+			curType = &TypeContract{Name: name, ProtectedBy: map[string][]string{}, OwnerLock: map[string][]string{}, Writers: map[string][]string{}}
 			cs.Types[name] = curType
 		case "protected_by":
 			if curType == nil {
@@ -305,6 +306,18 @@ func (cs *ContractSet) ParseContractFile(path string, pkgPath string) error {
 			ow := strings.TrimSpace(rest[:k])
 			for _, f := range strings.Split(rest[k+1:], ",") {
 				curType.OwnerLock[ow] = append(curType.OwnerLock[ow], strings.TrimSpace(f))
+			}
+		case "writers":
+			if curType == nil {
+				return fmt.Errorf("%s:%d: writers outside type", path, l.no)
+			}
+			k := strings.Index(rest, ":")
+			if k < 0 {
+				return fmt.Errorf("%s:%d: writers field: f1, f2", path, l.no)
+			}
+			fld := strings.TrimSpace(rest[:k])
+			for _, f := range strings.Split(rest[k+1:], ",") {
+				curType.Writers[fld] = append(curType.Writers[fld], strings.TrimSpace(f))
 			}
 		case "complete":
 			if curType == nil {
